@@ -24,8 +24,11 @@ ReuseScenarios == {[main |-> m, tree |-> [depth |-> 0, form |-> "none", body |->
 \* one VM, two invocations under DIFFERENT contexts: a thread started by a run under a context that stays live is
 \* waited for by a later Call under the scenario's context, which must return when its OWN context is done
 CrossScenarios == {[main |-> "crosswait", tree |-> [depth |-> 0, form |-> "none", body |-> "none"], at |-> "reuse_wait"]}
-Scenarios == CrossScenarios \cup UNION {{[main |-> m, tree |-> t, at |-> a] : t \in Trees, a \in InstantsFor(m)} : m \in Mains} \cup ReuseScenarios
-Expected(s) == [returns |-> TRUE, err |-> "ctxerr", ticks_after_return |-> 0]
+\* the main code finishes normally while goroutines it started keep running; the context is cancelled only AFTER the
+\* call has returned (with no error): the goroutines must stop then
+AfterScenarios == {[main |-> "finishes", tree |-> t, at |-> "afterreturn"] : t \in Trees \ {[depth |-> 0, form |-> "none", body |-> "none"]}}
+Scenarios == CrossScenarios \cup AfterScenarios \cup UNION {{[main |-> m, tree |-> t, at |-> a] : t \in Trees, a \in InstantsFor(m)} : m \in Mains} \cup ReuseScenarios
+Expected(s) == [returns |-> TRUE, err |-> IF s.at = "afterreturn" THEN "nil" ELSE "ctxerr", ticks_after_return |-> 0]
 VARIABLE s
 Init == s \in Scenarios
 Next == UNCHANGED s
